@@ -719,7 +719,7 @@ package cbor
 //@   ensures !noQuotes && ncalls(decodeStringComplex) == old(ncalls(decodeStringComplex)) ==> (forall k in 0..len(res)-2: asciiplain(res[1+k]))
 //@   loop 1:
 //@     invariant 0 <= i
-//@     invariant forall k in 0..i: asciiplain(result_readNBytes[k])
+//@     invariant [C08] forall k in 0..i: asciiplain(result_readNBytes[k])
 
 //@ func decodeUTF8String(src) res
 //@   props C08
@@ -732,7 +732,7 @@ package cbor
 //@   ensures ncalls(decodeStringComplex) == old(ncalls(decodeStringComplex)) ==> (forall k in 0..len(res)-2: asciiplain(res[1+k]))
 //@   loop 1:
 //@     invariant 0 <= i
-//@     invariant forall k in 0..i: asciiplain(result_readNBytes[k])
+//@     invariant [C08] forall k in 0..i: asciiplain(result_readNBytes[k])
 
 // an integer item: major type 0 gives the argument, major type 1 gives -1 - argument
 //@ func decodeInteger(src) res
@@ -761,6 +761,8 @@ package cbor
 //@ track strconv.FormatUint, strconv.Itoa
 //@ func cbor2JsonOneObject(src, dst)
 //@   props C08
+//@   flag logframe
+//@   ensures [C17] forall j in old(ncalls(Reader.Peek))..ncalls(Reader.Peek): callres(Reader.Peek, j, 1) == nil
 //@   arith bv
 //@   flag tags binary_log
 //@   requires src != nil && dst != nil
@@ -772,3 +774,38 @@ package cbor
 //@   ensures old(content(src))[0] >> 5 == 1 ==> ncalls(strconv.Itoa) == old(ncalls(strconv.Itoa)) + 1 && ncalls(strconv.FormatUint) == old(ncalls(strconv.FormatUint))
 //@   ensures old(content(src))[0] >> 5 == 1 && old(content(src))[0] & 31 <= 23 ==> callarg(strconv.Itoa, old(ncalls(strconv.Itoa)), 0) == -1 - int(old(content(src))[0] & 31)
 //@   ensures old(content(src))[0] >> 5 == 1 && old(content(src))[0] & 31 == 24 ==> callarg(strconv.Itoa, old(ncalls(strconv.Itoa)), 0) == -1 - int(old(content(src))[1])
+
+// C17 (truncation): a failed look-ahead is never swallowed -- whenever one of
+// the framing functions returns normally, every Peek it (or an item nested in
+// it) made had succeeded; and the stream decoder hands each item straight to
+// the caller's writer, so what was decoded before a bad tail is already out.
+//@ track Reader.Peek, cbor2JsonOneObject
+//@ func map2Json(src, dst)
+//@   props C17
+//@   flag logframe
+//@   arith bv
+//@   flag tags binary_log
+//@   requires src != nil && dst != nil
+//@   ensures forall j in old(ncalls(Reader.Peek))..ncalls(Reader.Peek): callres(Reader.Peek, j, 1) == nil
+//@   loop 1:
+//@     invariant forall j in old(ncalls(Reader.Peek))..ncalls(Reader.Peek): callres(Reader.Peek, j, 1) == nil
+
+//@ func array2Json(src, dst)
+//@   props C17
+//@   flag logframe
+//@   arith bv
+//@   flag tags binary_log
+//@   requires src != nil && dst != nil
+//@   ensures forall j in old(ncalls(Reader.Peek))..ncalls(Reader.Peek): callres(Reader.Peek, j, 1) == nil
+//@   loop 1:
+//@     invariant forall j in old(ncalls(Reader.Peek))..ncalls(Reader.Peek): callres(Reader.Peek, j, 1) == nil
+
+//@ func Cbor2JsonManyObjects(src, dst) err
+//@   props C17
+//@   flag logframe
+//@   arith bv
+//@   flag tags binary_log
+//@   requires src != nil && dst != nil
+//@   ensures forall j in old(ncalls(cbor2JsonOneObject))..ncalls(cbor2JsonOneObject): callarg(cbor2JsonOneObject, j, 1) == dst
+//@   loop 1:
+//@     invariant forall j in old(ncalls(cbor2JsonOneObject))..ncalls(cbor2JsonOneObject): callarg(cbor2JsonOneObject, j, 1) == dst
